@@ -543,6 +543,27 @@ func (e *specEnv) evalCall(n *ECall) sv {
 		need(2)
 		as := args()
 		return sv{app(n.Fun, as[0].t, as[1].t), tInt}
+	case "bitor_fact":
+		// model axiom of | on non-negative integers, instantiated explicitly:
+		// bit k of (a | b) is set iff it is set in a or in b
+		need(3)
+		as := args()
+		a, b, k := as[0].t, as[1].t, as[2].t
+		bit := func(x string) string { return eq(app("mod", app("div", x, app("pow2", k)), "2"), "1") }
+		or1 := app("bits_or", a, b)
+		return sv{implies(and(le("0", a), le("0", b), le("0", k), le(k, "62")), and(le("0", or1), eq(bit(or1), or(bit(a), bit(b))))), tBool}
+	case "bitor":
+		need(2)
+		as := args()
+		return sv{app("bits_or", as[0].t, as[1].t), tInt}
+	case "pow2":
+		need(1)
+		return sv{app("pow2", args()[0].t), tInt}
+	case "bit":
+		// bit(x, k): bit k of the non-negative integer x
+		need(2)
+		as := args()
+		return sv{eq(app("mod", app("div", as[0].t, app("pow2", as[1].t)), "2"), "1"), tBool}
 	case "rcount":
 		need(1)
 		return sv{app("rcount", args()[0].t), tInt}
@@ -585,6 +606,26 @@ func (e *specEnv) evalCall(n *ECall) sv {
 	case "string":
 		need(1)
 		return sv{args()[0].t, tStr}
+	}
+	// a lemma applied to arguments denotes its (proved) statement for those arguments; used as a
+	// hypothesis it hands the solver the instance it needs
+	for _, lem := range c.eng.specs.Lemmas {
+		if lem.Name == n.Fun {
+			as := args()
+			if len(as) != len(lem.Params) {
+				specFail("lemma %s expects %d arguments", lem.Name, len(lem.Params))
+			}
+			bind := map[string]sv{}
+			for i, p := range lem.Params {
+				bind[p.Name] = as[i]
+			}
+			req, ens, _, _, err := c.lemmaParts(lem, bind)
+			if err != nil {
+				specFail("lemma %s: %v", lem.Name, err)
+			}
+			c.usedLemmaCalls[lem.Name] = true
+			return sv{implies(and(req...), and(ens...)), tBool}
+		}
 	}
 	sf := c.eng.specs.Funcs[n.Fun]
 	if sf == nil {
